@@ -1283,6 +1283,11 @@ func Eq(a, b *Term) *Term {
 		if x.K == KIte && y.K == KConst && x.Args[1].K == KConst && x.Args[2].K == KConst {
 			return Ite(x.Args[0], Eq(x.Args[1], y), Eq(x.Args[2], y))
 		}
+		if x.K == KSelect && y.K == KConst {
+			if r := selectEqConst(x, y); r != nil {
+				return r
+			}
+		}
 	}
 	return mk(&Term{K: KEq, Args: []*Term{a, b}})
 }
@@ -1494,7 +1499,88 @@ func Select(tab *Table, idx *Term) *Term {
 		}
 		return Const(tab.ElemW, 0)
 	}
+	if r := selectSimplify(tab, idx); r != nil {
+		return r
+	}
 	return mk(&Term{K: KSelect, W: tab.ElemW, Args: []*Term{idx}, Tab: tab})
+}
+
+// tabAt is the value of a table at i (entries beyond len(Vals) read as 0, as in Select).
+func tabAt(t *Table, i uint64) uint64 {
+	if i < uint64(len(t.Vals)) {
+		return t.Vals[i]
+	}
+	return 0
+}
+
+// selectSimplify: lookups in concrete tables that need no solver.
+//   - a lookup whose index is itself a lookup (decodeMap[encodeMap[i]], asciiSpace[table[i]]) is a
+//     lookup in the composed table (index domain at most 2^16 entries);
+//   - a table that is constant over its whole index domain is that constant;
+//   - a table that is the identity over its whole index domain is a zero extension/truncation.
+func selectSimplify(tab *Table, idx *Term) *Term {
+	if tab.IdxW > 16 {
+		return nil
+	}
+	if idx.K == KSelect && idx.Tab.IdxW <= 16 {
+		in := idx.Tab
+		n := 1 << uint(in.IdxW)
+		vals := make([]uint64, n)
+		for i := 0; i < n; i++ {
+			vals[i] = tabAt(tab, tabAt(in, uint64(i)))
+		}
+		return Select(NewTable("comp", in.IdxW, tab.ElemW, vals), idx.Args[0])
+	}
+	n := uint64(1) << uint(tab.IdxW)
+	allEq, ident := true, true
+	for i := uint64(0); i < n; i++ {
+		v := tabAt(tab, i)
+		if v != tabAt(tab, 0) {
+			allEq = false
+		}
+		if v != i {
+			ident = false
+		}
+		if !allEq && !ident {
+			return nil
+		}
+	}
+	if allEq {
+		return Const(tab.ElemW, tabAt(tab, 0))
+	}
+	if ident {
+		if tab.ElemW >= tab.IdxW {
+			return Zext(idx, tab.ElemW)
+		}
+		return Extract(idx, tab.ElemW-1, 0)
+	}
+	return nil
+}
+
+// selectEqConst decides select(tab, i) == k by scanning the table: no entry equal => false, all
+// entries equal => true, exactly one entry equal => i == that index.
+func selectEqConst(s *Term, k *Term) *Term {
+	tab := s.Tab
+	if tab.IdxW > 16 || k.W > 64 {
+		return nil
+	}
+	n := uint64(1) << uint(tab.IdxW)
+	cnt, at := uint64(0), uint64(0)
+	for i := uint64(0); i < n; i++ {
+		if tabAt(tab, i) == k.V {
+			cnt++
+			at = i
+		}
+	}
+	switch cnt {
+	case 0:
+		return False
+	case n:
+		return True
+	case 1:
+		return Eq(s.Args[0], Const(tab.IdxW, at))
+	}
+	return nil
 }
 
 // HasSym reports whether t contains any variable or UF.
